@@ -53,7 +53,7 @@ Consume == /\ l <= Len(T.ev)
 
 \* client steps that have no event of their own in the implementation
 Silent == /\ l <= Len(T.ev) /\ sil < 3
-          /\ \E c \in Clients : S4(c) \/ P3(c) \/ P4(c) \/ P5(c) \/ P6(c) \/ (E1(c) /\ ~HasRoom)     \* (the last: acquire, then block in put)
+          /\ \E c \in Clients : S4(c) \/ S4w(c) \/ P3(c) \/ P4(c) \/ P5(c) \/ P6(c) \/ (E1(c) /\ ~HasRoom)     \* (the last: acquire, then block in put)
           /\ l' = l /\ tid' = tid /\ sil' = sil + 1
 
 TNext == Consume \/ Silent
